@@ -5,6 +5,7 @@ C15.b the checker compares each leaf particle with every remembered leaf and rem
 C15.c EDC: the inconsistency report depends on the consistency test alone and comes before the overlap shortcut
 C15.d UPA: an element competing with an XSD 1.1 wildcard is given precedence instead of being an error
 C15.e what 'consistent' means for two element particles; where the 1.1 wildcard honours the precedence
+C15.f lenient comparison through a wildcard   C15.g distinguishable_paths: 1<->2 symmetry and strict before/after partition
 
 Not decided: that distinguishable_paths separates exactly the deterministic pairs (occurrence ranges over runtime particle
 graphs) - the quoted misses, e.g. (a, c+, a*)+ accepted, are in that function.
@@ -59,29 +60,52 @@ def rule_a(ctx: Ctx) -> None:
                 'check_model) and the shape of the handler around the call.')
 
 
+_MEMORY_ITERS = ('paths.values()', 'paths', 'list(paths)', 'paths.items()', 'tuple(paths)')
+
+
+def _memory_loop(g):
+    ls = [n for n in g.nodes if n.kind == 'for' and text(n.ast.iter) in _MEMORY_ITERS]
+    if len(ls) != 1:
+        raise AnalysisError('check_model: expected one loop over the remembered leaves `paths`')
+    return ls[0]
+
+
 def rule_b(ctx: Ctx) -> None:
     rule = 'C15.b'
     f = ctx.idx.func(f'{MODELS}.check_model')
     g = cfg_of(ctx, f)
     outer = [n for n in g.nodes if n.kind == 'for' and text(n.ast.iter) == 'safe_iter_path()']
-    inner = [n for n in g.nodes if n.kind == 'for' and text(n.ast.iter) == 'paths.values()']
+    inner = [n for n in g.nodes if n.kind == 'for' and text(n.ast.iter) in ('paths.values()', 'paths', 'list(paths)', 'paths.items()', 'tuple(paths)')]
     if len(outer) != 1 or len(inner) != 1:
-        raise AnalysisError(f'{rule}: expected `for e in safe_iter_path()` with one nested `for … in paths.values()` in {f.qualname}')
+        raise AnalysisError(f'{rule}: expected `for e in safe_iter_path()` with one nested loop over `paths` in {f.qualname}')
     o, i = outer[0], inner[0]
     ok = any(i.ast is x for b in o.ast.body for x in ast.walk(b))
     ctx.ob(rule, 'check_model: each leaf particle is compared with every leaf remembered so far (nested loops)', f.loc(i.ast), ok, '', key='check_model|all-pairs',
            nontrivial=False)
-    stores = [n for n in g.nodes if n.kind == 'stmt' and isinstance(n.ast, ast.Assign) and isinstance(n.ast.targets[0], ast.Subscript)
-              and text(n.ast.targets[0].value) == 'paths']
+    stores = [n for n in g.nodes if n.kind == 'stmt' and ((isinstance(n.ast, ast.Assign) and isinstance(n.ast.targets[0], ast.Subscript)
+                                                           and text(n.ast.targets[0].value) == 'paths')
+                                                          or (isinstance(n.ast, ast.Expr) and isinstance(n.ast.value, ast.Call)
+                                                              and text(n.ast.value.func) == 'paths.append' and len(n.ast.value.args) == 1))]
     ctx.floor(rule, 'stores into the table of visited leaves', len(stores), 1)
     for s in stores:
+        # the memory keeps distinct leaves apart: appended, or keyed by the particle itself - a key such as e.name merges the particles of one name
+        # (and every wildcard, whose name is None), so only the latest of them is compared with the leaves that follow
+        if isinstance(s.ast, ast.Assign):
+            key = text(s.ast.targets[0].slice)
+            inj = key in ('id(e)', 'e', 'len(paths)')
+        else:
+            key, inj = 'append', True
+        ctx.ob(rule, 'check_model: the table of visited leaves keeps every leaf (no two particles share a slot)', f.loc(s.ast), inj,
+               '' if inj else f'`paths[{key}]`: a later particle with the same {key.split(".")[-1]} replaces the earlier one, which is never compared again - '
+               'choice(seq(a, x), seq(b, a), a) is accepted although the first and the third `a` compete, and so is any third wildcard overlapping the first '
+               '(all wildcards share the key None)', key='check_model|slot-per-leaf')
         # every iteration of the outer loop that completes normally stores the leaf (a `continue` of the inner loop must not skip it)
         starts = [m for m, lab in g.succ[o] if lab == 'T']
         back = reach_cut(g, starts, set(), avoid=[s], kinds='nTF')
         ok = o not in back
         ctx.ob(rule, 'check_model: every leaf that passed the comparisons is remembered for the following leaves', f.loc(s.ast), ok,
                '' if ok else 'an iteration can finish without storing the leaf: later particles are not compared with it', key='check_model|store-every-leaf')
-        v = s.ast.value
+        v = s.ast.value if isinstance(s.ast, ast.Assign) else s.ast.value.args[0]
         elts = v.elts if isinstance(v, ast.Tuple) else [v]
         snap = [e for e in elts if 'current_path' in text(e)]
         ok = bool(snap) and all(isinstance(e, ast.Subscript) and isinstance(e.slice, ast.Slice) or
@@ -104,7 +128,7 @@ def rule_c(ctx: Ctx) -> None:
     rule = 'C15.c'
     f = ctx.idx.func(f'{MODELS}.check_model')
     g = cfg_of(ctx, f)
-    inner = [n for n in g.nodes if n.kind == 'for' and text(n.ast.iter) == 'paths.values()'][0]
+    inner = _memory_loop(g)
     raises = [n for n in g.nodes if n.kind == 'raise' and 'XMLSchemaModelError' in text(n.ast.exc)]
     ctx.floor(rule, 'model errors raised by check_model', len(raises), 3)
     edc = []
@@ -139,7 +163,7 @@ def rule_d(ctx: Ctx) -> None:
     rule = 'C15.d'
     f = ctx.idx.func(f'{MODELS}.check_model')
     g = cfg_of(ctx, f)
-    inner = [n for n in g.nodes if n.kind == 'for' and text(n.ast.iter) == 'paths.values()'][0]
+    inner = _memory_loop(g)
     raises = [n for n in g.nodes if n.kind == 'raise' and 'XMLSchemaModelError' in text(n.ast.exc)]
     tests = [(text(x.ast.test), x) for x in g.nodes if x.kind == 'if']
     w_pe = [x for t, x in tests if t == 'isinstance(pe, Xsd11AnyElement) and (not isinstance(e, XsdAnyElement))']
@@ -230,4 +254,213 @@ def rule_f(ctx: Ctx) -> None:
                 'the comparison with the wildcard-resolved declaration.')
 
 
-RULES = [rule_a, rule_b, rule_c, rule_d, rule_e, rule_f]
+def _swap12(t: str) -> str:
+    import re
+    return re.sub(r'\b(path|univocal|before|after|idx)([12])\b', lambda m: m.group(1) + ('2' if m.group(2) == '1' else '1'), t)
+
+
+def _alpha(loop: ast.AST) -> str:
+    """source of the loop with the names it binds itself (other than the 1/2 families) replaced by position numbers."""
+    import copy
+    import re
+    fam = re.compile(r'^(path|univocal|before|after|idx)[12]$')
+    t = copy.deepcopy(loop)
+    order = []
+    for x in ast.walk(t):
+        if isinstance(x, ast.Name) and isinstance(x.ctx, ast.Store) and not fam.match(x.id) and x.id not in order:
+            order.append(x.id)
+    m = {n: f'_v{i}' for i, n in enumerate(order)}
+    for x in ast.walk(t):
+        if isinstance(x, ast.Name) and x.id in m:
+            x.id = m[x.id]
+    return ast.unparse(t)
+
+
+def rule_g(ctx: Ctx) -> None:
+    """distinguishable_paths(path1, path2): the two paths are treated alike, and the siblings of the on-path child are split into
+    those strictly before and those strictly after it - the child itself is on neither side."""
+    rule = 'C15.g'
+    f = ctx.idx.func('xmlschema.validators.models.distinguishable_paths')
+    ctx.analysed(f.qualname)
+    # 1. the loop over the nested groups of path1 and the loop over those of path2 are the same code under 1<->2
+    loops = [s for s in f.node.body if isinstance(s, ast.For) and isinstance(s.iter, ast.Call) and text(s.iter.func) == 'range' and 'len(path' in text(s.iter)]
+    ctx.floor(rule, 'loops over the nested groups of a path', len(loops), 2)
+    if len(loops) == 2:
+        a, b = (_alpha(x) for x in loops)
+        ok = _swap12(a) == b
+        det = ''
+        if not ok:
+            la, lb = _swap12(a).split('\n'), b.split('\n')
+            d = next(((x, y) for x, y in zip(la, lb) if x != y), (la[-1], lb[-1]))
+            det = f'the two paths are treated differently: `{d[0].strip()[:80]}` for path1 against `{d[1].strip()[:80]}` for path2 - a pair (p, q) of competing particles ' \
+                  'is then judged by another rule than the pair (q, p), e.g. ((a{1,2}), a) is accepted as deterministic'
+        ctx.ob(rule, 'distinguishable_paths: the loops over path1 and path2 agree under the exchange 1<->2', f.loc(loops[0]), ok, det, key='distinguishable_paths|symmetry-loops')
+    # 2. every sibling slice is strictly before or strictly after the on-path child
+    idx_defs = {}
+    for x in ast.walk(f.node):
+        if isinstance(x, ast.Assign) and len(x.targets) == 1 and isinstance(x.targets[0], ast.Name) and isinstance(x.value, ast.Call) \
+                and isinstance(x.value.func, ast.Attribute) and x.value.func.attr == 'index':
+            idx_defs.setdefault(x.targets[0].id, []).append((text(x.value.func.value), text(x.value.args[0]) if x.value.args else ''))
+    n = 0
+    for x in ast.walk(f.node):
+        if not isinstance(x, ast.GeneratorExp):
+            continue
+        it = x.generators[0].iter
+        if not (isinstance(it, ast.Subscript) and isinstance(it.slice, ast.Slice) and text(it.value).startswith('path')):
+            continue
+        n += 1
+        lo, hi = it.slice.lower, it.slice.upper
+        seq = text(it.value)
+        def is_idx(e):
+            return isinstance(e, ast.Name) and e.id in idx_defs
+        def is_idx_plus_1(e):
+            return isinstance(e, ast.BinOp) and isinstance(e.op, ast.Add) and is_idx(e.left) and isinstance(e.right, ast.Constant) and e.right.value == 1
+        before = lo is None and hi is not None and is_idx(hi)
+        after = lo is not None and is_idx_plus_1(lo) and (hi is None or is_idx(hi))
+        ok = before or after
+        # the index was taken in the sliced sequence (or in the same group reached through the other path: path1[depth] is path2[depth])
+        names = [e.id for e in (hi, getattr(lo, 'left', None)) if isinstance(e, ast.Name)]
+        import re
+        same_seq = all(any(re.sub(r'path[12]', 'path', sq) == re.sub(r'path[12]', 'path', seq) for sq, _ in idx_defs.get(nm, [])) for nm in names)
+        ctx.ob(rule, f'distinguishable_paths: `{seq}[{text(it.slice)}]` lies strictly before or strictly after the on-path child', f.loc(x), ok and same_seq,
+               '' if ok and same_seq else ('the slice includes the on-path child itself: a particle that is not emptiable then counts as "a required particle after itself" and an '
+                                           'ambiguous pair such as ((a{1,2}), a) is declared distinguishable' if not ok else 'the index was computed in another sequence'),
+               key=f'distinguishable_paths|slice|{seq}|{"before" if lo is None else "after"}|{text(it.slice)}')
+    ctx.floor(rule, 'sibling slices in distinguishable_paths', n, 7)
+    # 3. the verdict for a repeated sequence is the conjunction of one condition and its 1<->2 mirror; the choice branch mirrors its two one-sided cases
+    rets = [r for r in ast.walk(f.node) if isinstance(r, ast.Return) and isinstance(r.value, ast.BoolOp) and isinstance(r.value.op, ast.And) and len(r.value.values) == 2
+            and 'before2 or' in text(r.value.values[0]) and 'before1 or' in text(r.value.values[1])]
+    ok = len(rets) == 1 and _swap12(text(rets[0].value.values[0])) == text(rets[0].value.values[1])
+    ctx.ob(rule, 'distinguishable_paths: for a repeatable sequence both directions are required and are mirror images', f.loc(rets[0]) if rets else f.loc(), ok, '',
+           key='distinguishable_paths|symmetry-verdict')
+    one = [r for r in ast.walk(f.node) if isinstance(r, ast.Return) and r.value is not None and 'is_univocal() or after' in text(r.value) and '.max_occurs == 1' in text(r.value)]
+    ok = len(one) == 2 and _swap12(text(one[0].value)) == text(one[1].value)
+    ctx.ob(rule, 'distinguishable_paths: the two one-sided cases of a choice/all group are mirror images', f.loc(one[0]) if one else f.loc(), ok, '',
+           key='distinguishable_paths|symmetry-choice')
+    ctx.explain('C15.g: sibling agreement inside distinguishable_paths - the code for path1 and the code for path2 are compared after exchanging the suffixes 1 and 2; '
+                'every slice over the siblings of the on-path child has the form [:idx] or [idx + 1:…] with idx taken by .index() in the same group. '
+                'That these conditions separate exactly the deterministic pairs is not decided.')
+
+
+# reviewed shortcuts of the comparison loop (atom, value on the edge): `pe is e` True - the same particle reached twice; `pe.is_overlap(e)` False - no name is
+# matched by both; `pe.is_univocal()` True for siblings of a sequence, only together with `pe.parent.max_occurs == 1` - the sequence cannot start over
+
+
+def rule_h(ctx: Ctx) -> None:
+    """Two overlapping leaves leave the inner loop of check_model without the path comparison only through reviewed shortcuts; the
+    'univocal sibling' shortcut is valid only for a sequence that occurs at most once - in (a, a?)* the third `a` of `a a a` may be the
+    optional second particle or the first particle of the next round."""
+    rule = 'C15.h'
+    from .common import atom_forces, bool_atoms
+    f = ctx.idx.func(f'{MODELS}.check_model')
+    ctx.analysed(f.qualname)
+    g = cfg_of(ctx, f)
+    inner = _memory_loop(g)
+    dp = [n for n, c in call_nodes(g, lambda c: text(c.func) == 'distinguishable_paths')]
+    conts = [n for n in g.nodes if n.kind == 'continue' and any(n.ast is x for x in ast.walk(inner.ast))]
+    ctx.floor(rule, '`continue` statements of the comparison loop', len(conts), 3)
+    k = 0
+    for c in conts:
+        dpt = [x for x in g.nodes if x.kind == 'if' and text(x.ast.test).startswith('distinguishable_paths(')]
+        if dpt and iteration_requires(g, inner, c, {(x, 'T') for x in dpt}):
+            ctx.ob(rule, 'check_model: the pair is skipped because the paths are distinguishable', f.loc(c.ast), True, '', key='check_model|skip|distinguishable', nontrivial=False)
+            continue
+        k += 1
+        # the innermost test whose true edge leads here
+        own = [x for x in g.nodes if x.kind == 'if' and any(m is c for m, lab in g.succ[x] if lab == 'T')]
+        if not own:
+            ctx.ob(rule, f'check_model: `continue` at line {c.lineno} is a reviewed shortcut', f.loc(c.ast), False, 'not directly behind a test', key=f'check_model|skip|{k}')
+            continue
+        t = own[0].ast.test
+        atoms = bool_atoms(t)
+        import itertools
+        from .common import bool_eval
+        same = [x for x in g.nodes if x.kind == 'if' and text(x.ast.test) == 'pe.parent is e.parent and pe.parent is not None']
+        siblings = bool(same) and iteration_requires(g, inner, c, {(x, 'T') for x in same})
+        ok, det, used = len(atoms) <= 8, '', set()
+        for bits in itertools.product((False, True), repeat=len(atoms)) if ok else ():
+            env = dict(zip(atoms, bits))
+            if not bool_eval(t, env):
+                continue
+            if env.get('pe is e') is True:
+                used.add('pe is e')
+            elif env.get('pe.is_overlap(e)') is False:
+                used.add('not pe.is_overlap(e)')
+            elif env.get('pe.is_univocal()') is True and siblings and env.get('pe.parent.max_occurs == 1') is True:
+                used.add('pe.is_univocal()')
+            else:
+                ok = False
+                if env.get('pe.is_univocal()') is True and siblings:
+                    det = ('the univocal-sibling shortcut is taken for a sequence that can occur again: (a, a?)* is accepted although the third `a` of `a a a` is '
+                           'either the optional particle of this round or the first particle of the next')
+                else:
+                    det = f'`{text(t)[:80]}` skips the path comparison of two overlapping particles when ' + \
+                          ', '.join(f'{k_} is {v_}' for k_, v_ in env.items()) + ': not a reviewed shortcut'
+                break
+        ctx.ob(rule, f'check_model: `continue` behind `{text(t)[:60]}` is a reviewed shortcut', f.loc(c.ast), ok, det,
+               key=f'check_model|skip|{"+".join(sorted(a_ for a_ in atoms if a_ in ("pe is e", "pe.is_overlap(e)", "pe.is_univocal()"))) or k}')
+    # nothing else leaves an iteration early: every other way to the loop head passes the path comparison or a precedence registration
+    ctx.ob(rule, 'check_model: the path comparison is present', f.loc(dp[0].ast) if dp else f.loc(), len(dp) == 1, '', key='check_model|comparison')
+    ctx.explain('C15.h: every `continue` of the comparison loop is behind distinguishable_paths(…) or behind a test made only of reviewed shortcut atoms; the univocal-sibling '
+                'atom must be conjoined with `pe.parent.max_occurs == 1` (truth table) under the same-parent guard.')
+
+
+def rule_i(ctx: Ctx) -> None:
+    """Sibling implementations of is_overlap (XSD 1.0 and 1.1 element particles): two element particles compete when they have the
+    same name or when one can be substituted for the other through any number of substitution-group steps - in both directions;
+    against a wildcard the members of the element's substitution group count too."""
+    rule = 'C15.i'
+    n = 0
+    for cq in ('xmlschema.validators.elements.XsdElement', 'xmlschema.validators.elements.Xsd11Element'):
+        c = ctx.idx.cls(cq)
+        f = c.methods.get('is_overlap')
+        if f is None:
+            raise AnalysisError(f'missing anchor {cq}.is_overlap')
+        n += 1
+        ctx.analysed(f.qualname)
+        g = cfg_of(ctx, f)
+        accept = [r for r in g.nodes if r.kind == 'return' and isinstance(r.ast.value, ast.Constant) and r.ast.value.value is True]
+        el = [r for r in accept if ('isinstance(other, XsdElement)', 'T') in guards(ctx, f, r)]
+        conds = ' ## '.join(t for r in el for t, lab in guards(ctx, f, r) if lab == 'T')
+        loops = ' ## '.join(text(x.ast.iter) for x in g.nodes if x.kind == 'for')
+        both = conds + ' ## ' + loops
+        ok_name = 'self.name == other.name' in conds or 'other.name == self.name' in conds
+        ctx.ob(rule, f'{c.name}.is_overlap: same name competes', f.loc(), ok_name, '', key=f'{c.name}.is_overlap|name')
+        pairs = set()
+        scopes = []     # (variable, iterated expression, subtree in which the variable is bound)
+        for x in ast.walk(f.node):
+            if isinstance(x, (ast.GeneratorExp, ast.ListComp, ast.SetComp)):
+                for gen in x.generators:
+                    if isinstance(gen.target, ast.Name):
+                        scopes.append((gen.target.id, text(gen.iter), x))
+            elif isinstance(x, ast.For) and isinstance(x.target, ast.Name):
+                scopes.append((x.target.id, text(x.iter), x))
+        for var, it, sub in scopes:
+            for x in ast.walk(sub):
+                if isinstance(x, ast.Compare) and len(x.ops) == 1 and isinstance(x.ops[0], ast.Eq):
+                    a_, b_ = text(x.left), text(x.comparators[0])
+                    for p_, q_ in ((a_, b_), (b_, a_)):
+                        if p_ in ('self.name', 'other.name') and q_ == f'{var}.name':
+                            pairs.add((p_, it))
+        for side, who in (('other.iter_substitutes()', 'the other particle is a head whose (nested) substitution group contains this element'),
+                          ('self.iter_substitutes()', 'this particle is a head whose (nested) substitution group contains the other element')):
+            me = 'self.name' if side.startswith('other') else 'other.name'
+            ok = (me, side) in pairs
+            ctx.ob(rule, f'{c.name}.is_overlap: {who}', f.loc(), ok,
+                   '' if ok else f'`{side}` is not consulted: only the direct substitution group is compared, so with n -> m -> h the model (ref h?, ref n) is accepted '
+                   'although <n/> is attributable to both particles', key=f'{c.name}.is_overlap|closure|{side.split(".")[0]}')
+        wl = [r for r in accept if ('isinstance(other, XsdAnyElement)', 'T') in guards(ctx, f, r)]
+        ok = len(wl) >= 2 and 'self.maps.substitution_groups.get(self.name, ())' in loops
+        ctx.ob(rule, f'{c.name}.is_overlap: against a wildcard the members of the substitution group count', f.loc(), ok, '', key=f'{c.name}.is_overlap|wildcard-members')
+    ctx.floor(rule, 'is_overlap implementations of element particles', n, 2)
+    # the closure really is transitive: iter_substitutes recurses
+    for cq in ('xmlschema.validators.elements.XsdElement', 'xmlschema.validators.elements.Xsd11Element'):
+        c = ctx.idx.cls(cq)
+        f = c.methods.get('iter_substitutes') or c.find_method('iter_substitutes')
+        rec = [cl for cl in calls(f.node) if isinstance(cl.func, ast.Attribute) and cl.func.attr == 'iter_substitutes']
+        ctx.ob(rule, f'{c.name}.iter_substitutes descends into the groups of the members', f.loc(), bool(rec), '', key=f'{c.name}.iter_substitutes|recursive')
+    ctx.explain('C15.i: sibling agreement of XsdElement.is_overlap and Xsd11Element.is_overlap: accepting returns of the element branch are conditioned on name equality and on '
+                'iter_substitutes() of both operands (the recursive closure).')
+
+
+RULES = [rule_a, rule_b, rule_c, rule_d, rule_e, rule_f, rule_g, rule_h, rule_i]
